@@ -414,7 +414,7 @@ func c15(c *Ctx) {
 				continue
 			}
 			for _, cs := range callsInBlockClosure(okBlock) {
-				if sc := cs.Common().StaticCallee(); sc != nil && strings.HasPrefix(sc.Name(), "buildSearchOp") {
+				if sc := cs.Common().StaticCallee(); sc != nil && strings.HasPrefix(engine.ShortName(sc), "buildSearchOp") {
 					caseCallee[nt.Obj().Name()] = sc
 				}
 			}
@@ -425,10 +425,10 @@ func c15(c *Ctx) {
 		key := "buildSearchOp|case " + name
 		callee := caseCallee[name]
 		want := "buildSearchOp" + strings.TrimPrefix(name, "SearchKey")
-		ok := callee != nil && strings.EqualFold(callee.Name(), want)
+		ok := callee != nil && strings.EqualFold(engine.ShortName(callee), want)
 		got := "no case"
 		if callee != nil {
-			got = "calls " + callee.Name()
+			got = "calls " + engine.ShortName(callee)
 		}
 		R.Check(ok, "R15.1", key, P.Pos(bso.Pos()), "case present and dispatches to "+want, "the type switch of buildSearchOp has "+got+" for "+name+": the key is answered 'bad search keyword' or evaluated as a different key")
 	}
@@ -590,7 +590,7 @@ func c15(c *Ctx) {
 	}
 	nb := 0
 	for _, f := range c.funcsInPkg("internal/state") {
-		if !strings.HasPrefix(f.Name(), "buildSearchOp") || f.Parent() != nil {
+		if !strings.HasPrefix(engine.ShortName(f), "buildSearchOp") || f.Parent() != nil {
 			continue
 		}
 		for _, cs := range engine.Calls(f) {
@@ -661,7 +661,7 @@ func c15(c *Ctx) {
 		// composite builders: every child result is merged into the returned result
 		for _, cs := range engine.Calls(f) {
 			sc := cs.Common().StaticCallee()
-			if sc == nil || !strings.HasPrefix(sc.Name(), "buildSearchOp") || sc == nbr || cs.Instr.Parent() != f {
+			if sc == nil || !strings.HasPrefix(engine.ShortName(sc), "buildSearchOp") || sc == nbr || cs.Instr.Parent() != f {
 				continue
 			}
 			call, ok := cs.Instr.(*ssa.Call)
@@ -703,7 +703,7 @@ func c15(c *Ctx) {
 			}
 			cut := map[ssa.Instruction]bool{}
 			for _, ms := range engine.Calls(f) {
-				if m := ms.Common().StaticCallee(); m != nil && m.Name() == "merge" && len(ms.Common().Args) == 2 && sameOrCell(ms.Common().Args[1], child) {
+				if m := ms.Common().StaticCallee(); m != nil && engine.ShortName(m) == "merge" && len(ms.Common().Args) == 2 && sameOrCell(ms.Common().Args[1], child) {
 					cut[ms.Instr] = true
 				}
 			}
@@ -796,7 +796,7 @@ func c15(c *Ctx) {
 				continue
 			}
 			call, ok := iff.Cond.(*ssa.Call)
-			if !ok || call.Call.StaticCallee() == nil || call.Call.StaticCallee().Name() != "IsUID" {
+			if !ok || call.Call.StaticCallee() == nil || engine.ShortName(call.Call.StaticCallee()) != "IsUID" {
 				continue
 			}
 			for si, want := range []string{"UID", "Seq"} {
@@ -969,7 +969,7 @@ func c15(c *Ctx) {
 			}
 		}
 		if clo == nil {
-			R.Fail("R15.4", key, P.Pos(builder.Pos()), "the search closure of "+builder.Name()+" cannot be identified")
+			R.Fail("R15.4", key, P.Pos(builder.Pos()), "the search closure of "+engine.ShortName(builder)+" cannot be identified")
 			continue
 		}
 		ns++
@@ -1062,7 +1062,7 @@ func c15(c *Ctx) {
 		why := ""
 		for _, cs := range engine.Calls(clo) {
 			sc := cs.Common().StaticCallee()
-			if sc == nil || sc.Name() != "contains" || len(cs.Common().Args) != 2 {
+			if sc == nil || engine.ShortName(sc) != "contains" || len(cs.Common().Args) != 2 {
 				continue
 			}
 			seen++
